@@ -331,5 +331,21 @@ def run(ctx):
            'many bytes and requires the second' % (sepc, termc), bool(ok), loc=wn.loc,
            detail='writer parts %s' % [txt(p) for p in parts])
     ctx.ob('T12.ns', wn.fq, 'the whole frame is handed to send', bool(sent_vals), loc=wn.loc)
+    # the size-prefix limit follows the *effective* maxsize of the call
+    w4 = Walker(prog, SockModel(prog))
+    for p in w4.paths(rn, recv=nci):
+        if p.kind == 'cutoff':
+            continue
+        ru2 = [o for o in p.ops if o.kind == 'call' and txt(o.val.func) == 'self.bsock.recv_until']
+        if not ru2:
+            continue
+        kw = {k.arg: k.value for k in ru2[0].val.keywords}
+        lim = w4.expand(kw['maxsize']) if 'maxsize' in kw else None
+        ts = tests_on(w4, p)
+        overridden = any(t == 'maxsize is _UNSET' and not truth for t, truth, o in ts)
+        if overridden:
+            ok = lim is not None and 'maxsize' in {x.id for x in ast.walk(lim) if isinstance(x, ast.Name)}
+            ctx.ob('T9.nslimit', rn.fq, 'with a per-call maxsize the size-prefix limit is computed from that maxsize (a valid frame up to '
+                   'the new limit is not rejected by a stale prefix limit)', ok, loc=loc(rn, ru2[0].node), detail=txt(lim) if lim is not None else 'no maxsize passed')
     for r, n in (('T10', 5), ('T9.sbuf', 1), ('T9.adv', 1), ('T17', 3), ('T12.ns', 2), ('T7.look', 2)):
         ctx.need(r, n)
